@@ -18,6 +18,7 @@ __all__ = [
 
 not_loaded = object()
 yaml_default_loader = None
+yaml_default_dumper = None
 
 
 def load_basic(value):
@@ -38,6 +39,18 @@ def load_basic(value):
     except ValueError:
         pass  # if parsing fails, return not_loaded
     return not_loaded
+
+
+yaml_float_pattern = re.compile(
+    """^(?:
+        [-+]?(?:[0-9][0-9_]*)\\.[0-9_]*(?:[eE][-+]?[0-9]+)?
+        |[-+]?(?:[0-9][0-9_]*)(?:[eE][-+]?[0-9]+)
+        |\\.[0-9_]+(?:[eE][-+][0-9]+)?
+        |[-+]?[0-9][0-9_]*(?::[0-5]?[0-9])+\\.[0-9_]*
+        |[-+]?\\.(?:inf|Inf|INF)
+        |\\.(?:nan|NaN|NAN))$""",
+    re.X,
+)
 
 
 def get_yaml_default_loader():
@@ -63,23 +76,31 @@ def get_yaml_default_loader():
     remove_implicit_resolver(DefaultLoader, "tag:yaml.org,2002:timestamp")
     remove_implicit_resolver(DefaultLoader, "tag:yaml.org,2002:float")
 
-    DefaultLoader.add_implicit_resolver(
-        "tag:yaml.org,2002:float",
-        re.compile(
-            """^(?:
-        [-+]?(?:[0-9][0-9_]*)\\.[0-9_]*(?:[eE][-+]?[0-9]+)?
-        |[-+]?(?:[0-9][0-9_]*)(?:[eE][-+]?[0-9]+)
-        |\\.[0-9_]+(?:[eE][-+][0-9]+)?
-        |[-+]?[0-9][0-9_]*(?::[0-5]?[0-9])+\\.[0-9_]*
-        |[-+]?\\.(?:inf|Inf|INF)
-        |\\.(?:nan|NaN|NAN))$""",
-            re.X,
-        ),
-        list("-+0123456789."),
-    )
+    DefaultLoader.add_implicit_resolver("tag:yaml.org,2002:float", yaml_float_pattern, list("-+0123456789."))
 
     yaml_default_loader = DefaultLoader
     return yaml_default_loader
+
+
+def get_yaml_default_dumper():
+    global yaml_default_dumper
+    if yaml_default_dumper:
+        return yaml_default_dumper
+
+    import yaml
+
+    class DefaultDumper(yaml.SafeDumper):
+        pass
+
+    # strings that the default loader reads as float must be written quoted
+    DefaultDumper.yaml_implicit_resolvers = {
+        first_letter: [(tag, regexp) for tag, regexp in mappings if tag != "tag:yaml.org,2002:float"]
+        for first_letter, mappings in yaml.SafeDumper.yaml_implicit_resolvers.items()
+    }
+    DefaultDumper.add_implicit_resolver("tag:yaml.org,2002:float", yaml_float_pattern, list("-+0123456789."))
+
+    yaml_default_dumper = DefaultDumper
+    return yaml_default_dumper
 
 
 def yaml_load(stream):
@@ -220,7 +241,7 @@ dump_json_kwargs = {
 def yaml_dump(data):
     import yaml
 
-    return yaml.safe_dump(data, **dump_yaml_kwargs)
+    return yaml.dump(data, Dumper=get_yaml_default_dumper(), **dump_yaml_kwargs)
 
 
 def yaml_comments_dump(data, parser):
